@@ -1,6 +1,5 @@
 # C36 / C38 — request decoders and amount exactness (coq/theories/Base/JsonTree.v, Ledger/Api.v, ApiProofs.v, ApiEffect.v)
-_API_TRUST = ['modelled, not verified: encoding/json (struct/map/Unmarshaler dispatch, lexing), math/big text I/O, strconv.ParseFloat / fmt %v %s %d of float64 '
-              '(modelled exactly in Base/JsonTree.v: correct rounding to binary64, amd64 float->int, shortest decimal; compared with Go on every run), regexp',
+_API_TRUST = ['modelled, not verified: encoding/json (struct/map/Unmarshaler dispatch, lexing, json.Number), math/big text I/O (big.Rat.SetString for integers spelled with exponent/fraction), fmt %v %s, regexp',
               'time.Parse(RFC3339Nano) is an abstract parameter of the decoder model (the theorems hold for every parser); its OCaml instance is compared with go-libs ParseTime on the timestamp corpus of the tie',
               'not modelled, exercised by the HTTP sweep only: chi routing, middlewares (auth, recover, ledger resolution/auto-create), go-libs api helpers, query-string parsing, cursors, filters; '
               'JSON lexing, duplicate and case-variant object keys are outside the generated corpus',
@@ -34,17 +33,20 @@ PROPS['C38'] = dict(
 
 PROPS['C36'] = dict(
     target='Props/C36',
-    theorems=['C36_decimal_roundtrip', 'C36_volumes_roundtrip', 'C36_posting_amount_exact', 'C36_v1_monetary_exact', 'C36_scriptv1_string_exact', 'C36_scriptv1_number_partial', 'C36_refuted_float'],
+    theorems=['C36_decimal_roundtrip', 'C36_volumes_roundtrip', 'C36_posting_amount_exact', 'C36_v1_monetary_exact', 'C36_scriptv1_string_exact', 'C36_scriptv1_number_exact',
+              'C36_scriptv1_bare_number_exact', 'C36_number_text_integer'],
     ties=[dict(name='TIE-C apidec', vh='apidec', model='apidec', case_head='apidec', n=dict(quick=12000, thorough=400000), kinds=['C36']),
           dict(name='TIE-D httpsweep', vh='httpsweep', model=None, n=dict(quick=600, thorough=20000), args=dict(all=['-focus', 'amounts']), kinds=['C36'], case_head='amount', replayable=False)],
     rule=_APIDEC_RULE + ' || ' + _SWEEP_RULE,
-    explanation='PARTIAL. Proved for ALL n : Z: decimal text round trip (big.Int String/SetString: JSON integers, SQL numeric text, bigint-as-string), Volumes.Value -> PostgreSQL composite I/O -> Volumes.Scan, postings amounts, v1 monetary '
-                'variables, string-form amounts of ScriptV1. The JSON-number form of a monetary (and a bare numeric) variable in vm.ScriptV1.ToCore goes through float64 and int(): exact only below 2^53 (C36_scriptv1_number_partial); '
-                'REFUTED above (C36_refuted_float: 2^53+1 -> 2^53, >= 2^63 -> -2^63), known finding. The ledger core is over Z (C01..C18 hold at any magnitude); storage/aggregation/filter exactness on the real stack is checked by the sweep '
-                '(digit-exact read-back through every read API with and without Formance-Bigint-As-String, balance filters with huge bounds).',
+    explanation='Proved for ALL n : Z: decimal text round trip (big.Int String/SetString: JSON integers, SQL numeric text, bigint-as-string), Volumes.Value -> PostgreSQL composite I/O -> Volumes.Scan, postings amounts, v1 monetary '
+                'variables, and the string AND JSON-number forms of script variables of the v2 / bulk API, bare numeric variables included (C36_scriptv1_number_exact, C36_scriptv1_bare_number_exact); integers spelled 1e3 / 100.0 are '
+                'rendered as the integer, non-integers pass verbatim (the machine rejects them). The model follows the REPAIRED code (fixes/09: json.Number instead of float64); before the repair the number form was exact only below '
+                '2^53 (refuted then). The ledger core is over Z (C01..C18 hold at any magnitude); storage/aggregation/filter exactness on the real stack is checked by the sweep (digit-exact read-back through every read API with and '
+                'without Formance-Bigint-As-String, balance filters with huge bounds).',
     trusted=_API_TRUST,
-    technique='Coq proof (decimal round trip via the standard library\'s DecimalString/DecimalZ lemmas, string lemmas for the composite codec, exactness of the decoders for every integer, binary64 model with a vm_compute refutation witness) '
+    technique='Coq proof (decimal round trip via the standard library\'s DecimalString/DecimalZ lemmas, string lemmas for the composite codec, exactness of the decoders for every integer) '
               '+ differential run of the extracted model against the real decoders + HTTP amount sweep on pgsem',
-    level_text='Unbounded theorems (all n : Z) about the Gallina models of the amount codecs and request decoders: exact for every path except JSON-number script variables of the v2/bulk API, which the model (binary64 rounding + amd64 int conversion, '
-               'compared with Go on every run) shows exact only below 2^53. Tied to the code by model-vs-Go runs on the amount lattice and by posting lattice amounts through v1/v2 and reading them back digit-exact through every read API.',
-    level_note='Trusted: Coq kernel, extraction, OCaml glue, Go harness, pgsem (numeric is modelled as unbounded integers). bun scanning/formatting and encoding/json are exercised for real, not modelled. Known finding: float64 script variables.')
+    level_text='Unbounded theorems (all n : Z) about the Gallina models of the amount codecs and request decoders: every path from a request body (postings, v1 and v2 script variables as strings, JSON numbers or bare numbers) is exact. '
+               'Tied to the code by model-vs-Go runs on the amount lattice and by posting lattice amounts through v1/v2 and reading them back digit-exact through every read API.',
+    level_note='Trusted: Coq kernel, extraction, OCaml glue (incl. the spelling of non-integer literals, an abstract parameter of the model), Go harness, pgsem (numeric is modelled as unbounded integers). bun scanning/formatting and '
+               'encoding/json are exercised for real, not modelled.')
